@@ -3,6 +3,7 @@
 package model
 
 import (
+	"math"
 	"fmt"
 	"sort"
 	"strings"
@@ -82,7 +83,35 @@ func SegDocs(batch []Doc) []segment.Document {
 // (length) and slightly field dependent so that a norm computed for the wrong
 // field or from the wrong length is visible.
 func NormCalc(field string, length int) float32 {
+	if NormMode != 0 {
+		return normTable[(len(field)+length+NormMode)%len(normTable)]
+	}
 	return 1.0/float32(1+length) + float32(len(field))*0.001
+}
+
+// NormMode != 0 selects norms from a table of float32 bit patterns outside the everyday range
+// (values >= 2 have bit 30 set; huge, maximal, denormal and minimal values): the norm is an opaque
+// strictly positive float32 to ice, and it is bit-packed into 1-hit dictionary values. The mode
+// rotates the table so that every (field, length) meets every entry under some mode 1..len(table).
+var NormMode int
+
+var normTable = []float32{2, 3, 1e30, math.MaxFloat32, 1e-40, 1, 0.5, math.SmallestNonzeroFloat32}
+
+// NormModes lists the non-default modes.
+func NormModes() []int {
+	out := make([]int, len(normTable))
+	for i := range out {
+		out[i] = i + 1
+	}
+	return out
+}
+
+// WithNormMode runs f under the given norm mode.
+func WithNormMode(m int, f func()) {
+	old := NormMode
+	NormMode = m
+	defer func() { NormMode = old }()
+	f()
 }
 
 // SumFreqLen sets every field's Len to the sum of its term frequencies
